@@ -93,7 +93,6 @@ inductive PC where
   | mRecv (sid : Sid) (rel : Bool)         -- `<-m.sfin`
   | mEvSfin (sid : Sid) (rel : Bool)       -- report sfin.recv
   | mEvRel | mRel                          -- report sem.rel; m.sem.Recv()
-  | mSoftEvRel (sid : Sid) | mSoftRel (sid : Sid)
   | mSendCancel (sid : Sid) | mSendCancelTok (sid : Sid) (bad : Bool) | mSoftAfter (sid : Sid) (bad : Bool)
   | mExit
   -- acquireSemaphore / waitForPreviousStream
@@ -155,7 +154,7 @@ def afterCancel (res : Bool) : CK → PC
   | .rdQueue p => .rEvQueue p
   | .rdWait p c => .rOrphan p c
   | .mgrTerm sid => .mRecv sid true
-  | .mgrSoft sid => .mRecv sid false
+  | .mgrSoft sid => .mRecv sid true
   | .mgrHard sid => if res then .mRecv sid true else .tSet (.mgrHard sid)
 
 /-- the failure exit of a call that holds the semaphore (deferred release in NewServerStream) -/
@@ -253,14 +252,13 @@ def stepPC (s : St) (t : Tid) (ch : Nat) : PC → Option St
     | some 0 => some (s.setPc t (.xCancel sid (.mgrTerm sid)))
     | some 1 => some (s.upd t { s.sh with sfin := false } (.mEvSfin sid true))
     | some _ =>
-      if s.sh.soft then some (s.setPc t (.mSoftEvRel sid))
+      -- soft cancel: the semaphore stays held until the fin token has been received (fix 110f4d6)
+      if s.sh.soft then some (s.setPc t (.mSendCancel sid))
       else some (s.setPc t (.xCancel sid (.mgrHard sid)))
   | .mRecv sid rel => if s.sh.sfin then some (s.upd t { s.sh with sfin := false } (.mEvSfin sid rel)) else none
   | .mEvSfin sid rel => some (s.upd t (s.sh.emit (.sfinRecv sid)) (if rel then .mEvRel else .mTop))
   | .mEvRel => some (s.upd t (s.sh.emit .semRel) .mRel)
   | .mRel => if s.sh.sem then some (s.upd t { s.sh with sem := false } .mTop) else none
-  | .mSoftEvRel sid => some (s.upd t (s.sh.emit .semRel) (.mSoftRel sid))
-  | .mSoftRel sid => if s.sh.sem then some (s.upd t { s.sh with sem := false } (.mSendCancel sid)) else none
   | .mSendCancel sid =>
     -- SendCancel: busy (0); not busy and: already terminated (nothing sent); else terminates the
     -- stream, writes the cancel packet (fails: 2 / 4) and may leave the stream finished (3 / 4)
